@@ -53,16 +53,16 @@ ASSUME Bug \subseteq BugNames
 -----------------------------------------------------------------------------
 (* abstract magnitudes                                                     *)
 IntU      == 8        \* an integer on the wire
-CapU      == 8        \* "the cap" of a capped reader
+CapU      == 64       \* "the cap" of a capped reader
 SupU      == 4        \* what a peer really supplies behind a hostile length
-SmallU    == 4
+SmallU    == 6        \* a minimal expression "A = 1" with its terminator
 BigU      == 64 * CapU
 FrameU    == 16       \* payload of an ordinary frame (slack of capped readers)
-FrameMaxU == 64       \* the maximum frame payload (1 MiB in the code)
+FrameMaxU == 8192     \* the maximum frame payload (1 MiB in the code)
 HdrU      == 1        \* a frame header
 RunN      == 40       \* a long run of partial frames
-Huge      == 100000   \* 2^31-1
-Huger     == 200000   \* 2^62, and -Huger = -2^63
+Huge      == 1000000  \* 2^31-1
+Huger     == 2000000  \* 2^62, and -Huger = -2^63
 
 (* the bounds of the property, in units                                    *)
 AllocA == 4    AllocB == 4 * FrameMaxU
@@ -389,11 +389,13 @@ FrameStep ==
                     Use(HdrU + (IF f.t = "short" THEN len \div 2 ELSE 0), HdrU + len, 1) /\ End("error", TRUE)
                [] OTHER ->
                     \* a complete frame
-                    IF enc /\ (f.p = "garbage" \/ len < ovh) /\ len > 0
+                    \* enc: "sealed" = an authentic protected frame whose PAYLOAD has the
+                    \* length class; "garbage" = a wire body of that length that no key sealed
+                    IF enc /\ f.p = "garbage" /\ len > 0
                     THEN Use(HdrU + len, HdrU + 2 * len, 1) /\ End("error", TRUE)   \* cannot be authentic
-                    ELSE IF enc /\ len = 0
-                    THEN Use(HdrU, HdrU, 1) /\ End("error", FALSE)                 \* C02's business
-                    ELSE /\ Use(HdrU + len, HdrU + 3 * len, 1)
+                    ELSE IF enc /\ f.p = "garbage"
+                    THEN Use(HdrU, HdrU, 1) /\ End("error", FALSE)                 \* empty frame: C02's business
+                    ELSE /\ Use(HdrU + len + ovh, HdrU + 3 * (len + ovh), 1)
                          /\ IF ~MultiFrame(scn.ep) \/ f.c # "e0"
                             THEN End("value", FALSE)     \* e2..e10: accepted or refused, both fine
                             ELSE Keep(<<status, strict>>)
@@ -453,9 +455,9 @@ StrRead(it, kind, advance) ==
             /\ Keep(<<status, strict>>) /\ advance
             /\ budget' = IF kind = "budget" THEN budget - total ELSE budget
   ELSE \* length-prefixed string on an encrypting stream
-       IF CutHere /\ supplied < IntU
-       THEN Use(supplied, 0, 1) /\ End("error", TRUE) /\ Keep(<<budget, pc, ii, capx>>)
-       ELSE IF declared < 0
+       \* (a cut item keeps its length prefix and loses half of its body; a cut
+       \*  prefix is the cut integer of GetInt and the starved string below)
+       IF declared < 0
        THEN /\ Use(IntU, 0, 1) /\ Keep(<<budget, pc, ii, capx>>)
             /\ IF "NegLenPanic" \in Bug THEN End("panic", FALSE) ELSE End("error", TRUE)
        ELSE IF capped /\ declared > cap /\ ~ignore
@@ -553,7 +555,8 @@ ProgStep ==
                        THEN StrRead(it, op.cap, (ii' = ii + 1 /\ pc' = pc)) /\ Keep(left)
                        ELSE StrRead(it, op.cap, (ii' = ii + 1 /\ pc' = pc)) /\ left' = left - 1
           [] op.o = "bytes" ->
-               LET sup == IF Item.n = "exact" THEN Max(Min(lastv, BigU), 0) ELSE SizeVal(Item.n)
+               LET sup0 == IF Item.n = "exact" THEN Max(Min(lastv, 512), 0) ELSE SizeVal(Item.n)
+                   sup == IF CutHere THEN sup0 \div 2 ELSE sup0
                    lim == IF op.cap = "lim" THEN 32 ELSE Huger + 1 IN
                /\ Keep(<<lastv, left, budget, capx>>)
                /\ IF lastv < 0
